@@ -193,11 +193,17 @@ def r1_reader_panics(ctx, F):
 
 def r2_reader_writer(ctx, F):
     """accepted values re-encode: the C10 round trip for the untrusted-input types"""
-    names = ("PublicInputs", "ExecutionProof", "HashFunction", "Kernel", "ProgramInfo", "StackInputs", "StackOutputs", "ProcedureAst", "ModuleImports", "LibraryPath", "ProcedureName")
+    names = ("PublicInputs", "ExecutionProof", "HashFunction", "Kernel", "ProgramInfo", "StackInputs", "StackOutputs", "ProcedureAst", "ModuleImports", "LibraryPath", "ProcedureName", "Instruction", "Node", "AdviceInjectorNode")
     n = 0
     for name, w, r, adt in rules_c10.pairs(F):
         if name in names and r and adt:
-            n += rules_c10.check_pair(ctx, F, name, w, r, adt, rules_c10.MODES)
+            variants = None
+            if name == "Instruction":
+                # C19 quantifies over values a reader can produce: instructions that have an opcode (a variant without one is a
+                # writer-side matter, C10 / F4)
+                ops = {v["name"] for v in F.adt(r"^miden_assembly::ast::nodes::serde::OpCode$")["variants"]}
+                variants = {v["name"] for v in adt["variants"] if v["name"] in ops or v["name"].replace("Dw", "DW") in ops}
+            n += rules_c10.check_pair(ctx, F, name, w, r, adt, rules_c10.MODES if name not in ("Instruction", "AdviceInjectorNode") else rules_c10.MODES[:1], variants=variants)
     ctx.floor("untrusted-types", n, 10)
 
 
